@@ -145,6 +145,22 @@ CLAIMED["C08"] = {
     "technique": "representation invariant as pre/postcondition of each primitive; per-path VCs by symbolic-scalar execution; Groebner elimination + z3 (QF_NRA)",
 }
 
+CLAIMED["C16"] = {
+    "text": "Partial, bounded (N<=3 points, <=2 iterations; SO2, SE2, SO3, R3): each of the four averaging routines instantiates (own translation unit), raises on an "
+            "empty set, returns the single / the identical point (only the first-test exit path is feasible: normal form + z3), returns a valid element, and the "
+            "one-step iterate of the bi-invariant and weighted means is left-equivariant (SO2, R3).",
+    "note": _REAL + "NOT decided: convergence within the iteration budget, order independence, equivariance of the Frechet variants (fixed-point statements). Bounded in N and iterations.",
+    "technique": "contracts on average.h instantiated per group and routine; per-path VCs by symbolic-scalar execution (bounded container size / iterations); normal form + z3",
+}
+
+CLAIMED["C12"] = {
+    "text": "Instantiated over forward-mode dual numbers (vs::Jet over the symbolic scalar): the primal part of every operation is the same expression as the "
+            "plain-scalar run, and d/dd [f(X(+)d)(-)f(X)] at d=0 read off the dual parts equals the analytic Jacobian of inverse, log, exp, compose, act "
+            "(+ rplus/rminus for the small groups) by normal form; the ceres manifold / local-parameterisation functors compute X(+)d and Y(-)X through raw pointers.",
+    "note": _REAL + "vs::Jet is a stand-in for ceres::Jet (ceres not installed). NOT decided: float-vs-double accuracy; objective/constraint functors (need ceres cost-function types).",
+    "technique": "contracts on the real templates instantiated over a dual-number scalar; same-execution DAG identity for primal parts; polynomial normal form for dual parts vs analytic Jacobians",
+}
+
 NOT_APPLICABLE = {
     "C14": "quantifies over thread schedules; contract verification of one sequential call cannot express or decide data-race freedom (no thread model in any installed deductive back end for this C++ code) - see DESIGN.md section 5",
     "C19": "the oracle is the compiler's accept/reject verdict over a matrix of client programs, not a pre/postcondition of any function - see DESIGN.md section 5",
